@@ -491,7 +491,7 @@ fn enc_prog_named(envs: &Envs, name: &str, src: &str, ctx: &Value, fmt_kind: usi
 
 /// `ctx<TAB><value tokens>`: the context of the modelled streams
 /// other ways into the engine / other configurations of the environment
-const ENTRIES: &[&str] = &["loader", "from_str", "captured", "expression", "block", "syntax", "nodebug", "escape_cb", "macro"];
+const ENTRIES: &[&str] = &["loader", "from_str", "captured", "expression", "block", "syntax", "nodebug", "escape_cb", "macro", "late_mode", "clone_mode"];
 
 fn entry_render(entry: &str, mode: UndefinedBehavior, src: &str, ctx: &Value) -> String {
     let r = guarded(|| -> Result<String, minijinja::Error> {
@@ -505,6 +505,24 @@ fn entry_render(entry: &str, mode: UndefinedBehavior, src: &str, ctx: &Value) ->
                 env.get_template("site")?.render(ctx.clone())
             }
             "from_str" => env.template_from_str(src)?.render(ctx.clone()),
+            "late_mode" => {
+                // the template is compiled while the environment still has the default mode; the mode is set afterwards
+                let mut env = Environment::new();
+                add_arg_filters(&mut env);
+                env.add_template_owned("site".to_string(), src.to_string())?;
+                env.set_undefined_behavior(mode);
+                env.get_template("site")?.render(ctx.clone())
+            }
+            "clone_mode" => {
+                // compiled in a Strict environment, rendered by a clone that was switched to the mode
+                let mut base = Environment::new();
+                base.set_undefined_behavior(UndefinedBehavior::Strict);
+                add_arg_filters(&mut base);
+                base.add_template_owned("site".to_string(), src.to_string())?;
+                let mut env = base.clone();
+                env.set_undefined_behavior(mode);
+                env.get_template("site")?.render(ctx.clone())
+            }
             "captured" => Ok(env.template_from_str(src)?.render_captured(ctx.clone())?.into_output()),
             "expression" => {
                 // `[{{ EXPR }}]` sites only
@@ -1291,6 +1309,21 @@ fn emit_sx(w: &mut impl std::io::Write, envs: &Envs, stream: &str, id: usize, la
     // the Lean model runs the cases over the shared context only
     let prog = if stream == "sx" && !sx_needs_app_values(src) { enc_prog_named(envs, name, src, &ctx_small(), k) } else { "-".into() };
     writeln!(w, "{}\t{}\t{}\t{}\t{}\t{}", stream, id, label, src, rs.join("\t"), prog).unwrap();
+}
+
+/// the site matrix in every output context / entry form / formatter, the product's diagonal included (also the
+/// subcommand `cx <tier>`)
+fn gen_cx(w: &mut impl std::io::Write, envs: &Envs, tier: &str, id: &mut usize) {
+    let small = ctx_small();
+    let diag = sx_diagonal();
+    for (cx, entry, k) in cx_combos(tier) {
+        for (class, src, expect) in SITES.iter().map(|(c, s, e)| (*c, *s, *e)).chain(diag.iter().map(|(c, s, e)| (*c, s.as_str(), *e))) {
+            if let Some(l) = cx_line(envs, cx, entry, k, *id, class, src, expect, &small) {
+                writeln!(w, "{}", l).unwrap();
+                *id += 1;
+            }
+        }
+    }
 }
 
 /// the `sx` streams of a tier (also the subcommand `sx <tier>`)
@@ -2214,10 +2247,10 @@ fn main() {
             }
             emit(&mut w, &envs, stream, 0, "replay", &src, &ctx, small);
         }
-        "sx" => {
+        "sx" | "cx" => {
             let tier = args.get(2).map(|s| s.as_str()).unwrap_or("quick").to_string();
             let mut id = 0usize;
-            gen_sx(&mut w, &envs, &tier, &mut id);
+            if cmd == "sx" { gen_sx(&mut w, &envs, &tier, &mut id) } else { gen_cx(&mut w, &envs, &tier, &mut id) }
         }
         "gen" => {
             let tier = args.get(2).map(|s| s.as_str()).unwrap_or("quick").to_string();
@@ -2248,16 +2281,8 @@ fn main() {
                 }
             }
             gen_sx(&mut w, &envs, &tier, &mut id);
-            // the site matrix in every output context / entry form / formatter (the product's diagonal included)
             let diag = sx_diagonal();
-            for (cx, entry, k) in cx_combos(&tier) {
-                for (class, src, expect) in SITES.iter().map(|(c, s, e)| (*c, *s, *e)).chain(diag.iter().map(|(c, s, e)| (*c, s.as_str(), *e))) {
-                    if let Some(l) = cx_line(&envs, cx, entry, k, id, class, src, expect, &small) {
-                        writeln!(w, "{}", l).unwrap();
-                        id += 1;
-                    }
-                }
-            }
+            gen_cx(&mut w, &envs, &tier, &mut id);
             let mut calls: Vec<(String, (String, String))> = vec![];
             gen_calls(BUILTINS, &tier, &mut |label, c| calls.push((label, c)));
             for (label, (src, sig)) in &calls {
@@ -2381,7 +2406,7 @@ fn main() {
             }
         }
         _ => {
-            eprintln!("usage: c12 gen <quick|thorough> | one <stream> <template> | names");
+            eprintln!("usage: c12 gen <quick|thorough> | sx <tier> | cx <tier> | one <stream> <template> | names");
             std::process::exit(2);
         }
     }
